@@ -69,6 +69,8 @@ structure Attr where
       (`k = 0`: the index cannot be resolved / located; otherwise the next key or value cannot be read);
       `none` — all pairs are read -/
   xattrFail : Option Nat := none
+  /-- `sqfs_inode_get_file_block_start`: where the file's data starts in the image; only `qsort(compare_files)` looks at it -/
+  dataStart : Nat := 0
   deriving DecidableEq, Repr, Inhabited
 
 /-- `sqfs_tree_node_t`.  `payload` = symlink target (`inode->extra`) for `lnk`, file content for `reg`. -/
@@ -274,11 +276,25 @@ structure FileEnt where
   data : Bytes
   /-- … and whether it then fails (`Attr.copyFail`) -/
   fail : Bool := false
+  /-- the inode's data start (`Attr.dataStart`), the key `compare_files` sorts by when no file has a fragment -/
+  loc : Nat := 0
   deriving DecidableEq, Repr
 
 /-- the entry `add_file` makes for a regular file: what the copy loop will write, and whether it then fails -/
 def mkFileEnt (p payload : Bytes) (a : Attr) : FileEnt :=
-  ⟨p, match a.copyFail with | none => payload | some n => payload.take n, a.copyFail.isSome⟩
+  ⟨p, match a.copyFail with | none => payload | some n => payload.take n, a.copyFail.isSome, a.dataStart⟩
+
+/-- insert into a list sorted by `loc`, behind the entries that are not larger (stable) -/
+def insertFile (x : FileEnt) : List FileEnt → List FileEnt
+  | [] => [x]
+  | y :: ys => if x.loc < y.loc then x :: y :: ys else y :: insertFile x ys
+
+/-- fill_files.c `qsort(files, num_files, …, compare_files)` for an image without fragments (every file has
+    `frag_idx = 0xFFFFFFFF`, so `compare_files` orders by start block only): the list sorted by `loc`.  Entries with equal
+    `loc` (hard links, empty files that share a start) keep their order here; `qsort` may put them in any order. -/
+def ordByLoc : List FileEnt → List FileEnt
+  | [] => []
+  | x :: xs => insertFile x (ordByLoc xs)
 
 structure GenOut where
   evs : List Ev := []
@@ -414,6 +430,9 @@ def unpackTree (ord : List FileEnt → List FileEnt) (fl : Flags) (t : TNode) : 
     fill phase as a multiset) -/
 def unpackPlan (raw : TNode) (fl : Flags) (tf : TreeFlags := {}) : Out := unpackTree id fl (decode tf raw)
 
+/-- the same with the file list in `compare_files` order -/
+def unpackPlanQ (raw : TNode) (fl : Flags) (tf : TreeFlags := {}) : Out := unpackTree ordByLoc fl (decode tf raw)
+
 def Out.syscalls (o : Out) : List Syscall :=
   o.evs.filterMap (fun | .sys s => some s | .skip _ => none)
 
@@ -453,7 +472,7 @@ def Fs.set (fs : Fs) (key : PathC) (n : Node) : Fs := fun q => if q = key then s
 inductive Errno where
   | ENOENT | EEXIST | ENOTDIR | ELOOP | ENAMETOOLONG | EISDIR | EPERM | ENXIO | EINVAL
   -- only ever injected by the environment (`Faults`), never produced by `step`:
-  | EACCES | ENOSPC | EIO | EROFS | EDQUOT | ENOTSUP
+  | EACCES | ENOSPC | EIO | EROFS | EDQUOT | ENOTSUP | ENOSYS | EINTR | ENOMEM | EMFILE | EBUSY
   deriving DecidableEq, Repr
 
 abbrev NAME_MAX : Nat := 255
